@@ -112,6 +112,8 @@ def main():
             msg = "a valid public key does not parse"
         elif cat.startswith("F.key-frames-as-pem") and cat.endswith("-der") and (("priv" in cat and not rp.startswith("P:ok")) or ("pub" in cat and not ru.startswith("U:ok"))):
             msg, known = "the DER form of a key does not parse although its PEM form does (PEM and DER forms must parse identically)", "K18-der-frames-as-pem"
+        elif cat.startswith("G.ber-indefinite") and (rp.startswith("P:ok") or ru.startswith("U:ok") or (rm.startswith("M:ok") and not rm.startswith("M:ok:0:"))):
+            msg = "a key re-encoded in BER with an indefinite length (not DER) is accepted: on any other input than a key file the parsers return an error"
         elif cat.startswith("F.key-has-begin-marker") and (("priv" in cat and not rp.startswith("P:ok")) or ("pub" in cat and not ru.startswith("U:ok"))):
             msg = "a key whose bytes contain a PEM begin marker (no complete frame) does not parse in its %s form (PEM and DER forms must parse identically)" % ("DER" if "-der-" in cat else "PEM")
         elif rm.startswith("M:ok:0:") and not cat.startswith("A.") :
